@@ -7,7 +7,7 @@ from concurrent.futures import ThreadPoolExecutor
 
 from . import tlc
 
-CONSTS = dict(MaxVersion=1000, MaxHits=100000, MaxPolls=1000000)
+CONSTS = dict(MaxVersion=1000, MaxHits=100000, MaxPolls=1000000, SharedConfigStore=False)
 INVS = ['NothingAfterShutdown', 'NoSpuriousSnapshots', 'HashIsReceivedConfig']
 
 
@@ -42,9 +42,14 @@ def run_script(script):
 
 
 def e2e_leg(c, rng, n, kind='end-to-end'):
-    c.mc('DeepAgent', dict(constants=dict(MaxVersion=2, MaxHits=3, MaxPolls=3),
-                           invariants=INVS + ['OnlyOfferedVersions', 'QuietWhenStopped'], deadlock=False),
-         label='composition, 2 versions, 3 hits, 3 polls', must_cover=['PollResp', 'Apply', 'Hit', 'Deliver', 'ShutdownEnd'])
+    c.mc('DeepAgent', dict(constants=dict(MaxVersion=2, MaxHits=3, MaxPolls=3, SharedConfigStore=False),
+                           invariants=INVS + ['OnlyOfferedVersions', 'QuietWhenStopped', 'HashMeansInstalled'],
+                           deadlock=False),
+         label='composition, 2 versions, 3 hits, 3 polls, restarts',
+         must_cover=['PollResp', 'Apply', 'Hit', 'Deliver', 'ShutdownEnd', 'Restart'])
+    c.mc_expect_violation('DeepAgent', dict(constants=dict(MaxVersion=1, MaxHits=1, MaxPolls=3, SharedConfigStore=True),
+                                            invariants=['HashMeansInstalled'], deadlock=False),
+                          'deviation SharedConfigStore', what='HashMeansInstalled')
     scripts = [random_script(rng) for _ in range(n)]
     with ThreadPoolExecutor(6) as ex:
         results = list(ex.map(run_script, scripts))
@@ -80,3 +85,75 @@ def e2e_leg(c, rng, n, kind='end-to-end'):
                 return
     c.sample({'direction': 'C2S', 'module': 'Trace_DeepAgent', 'script': meta[0]['script'],
               'events': [(e['ev'], e.get('v', e.get('hash', e.get('after')))) for e in traces[0][1:]]})
+
+
+def _run_sub(args, env_extra=None, timeout=300):
+    env = dict(os.environ)
+    env.update(env_extra or {})
+    return subprocess.run(args, cwd=tlc.VERIF, env=env, stdout=subprocess.PIPE, stderr=subprocess.PIPE, timeout=timeout)
+
+
+def two_lives_leg(c):
+    """deep.start() / shutdown() twice in one process against a service whose configuration does not change: the second
+    agent knows no configuration yet, so it must ask for it (hash 0), get it and act on it. Trace judged by Trace_AgentIT."""
+    p = _run_sub([sys.executable, '-m', 'harness.twolives', '3'], timeout=180)
+    res = None
+    for line in p.stdout.decode('utf-8', 'replace').split('\n'):
+        if line.startswith('RESULT '):
+            res = json.loads(line[7:])
+    if res is None:
+        raise tlc.MachineryError('two-lives run produced no result: %s' % p.stderr.decode('utf-8', 'replace')[-600:])
+    trace = res['events']
+    accepted, progress, r = tlc.validate_traces('Trace_AgentIT', [trace], constants=CONSTS, invariants=['TraceInvariant'])
+    c.states += r.distinct
+    c.transitions += r.generated
+    c.traces_validated += 1
+    c.note_case(key=('two-lives',), nontrivial=True)
+    problems = []
+    if 0 not in accepted or not r.ok:
+        at = progress.get(0, 1)
+        problems.append('trace rejected by Trace_AgentIT at event %d: %s%s' % (
+            at, trace[at - 1] if at - 1 < len(trace) else None, (' (%s)' % r.violation) if not r.ok else ''))
+    for i, life in enumerate(res['lives'], 1):
+        if life['result'] != 2:
+            problems.append('life %d: host result %r' % (i, life['result']))
+        if life['snapshots'] != 1:
+            problems.append('life %d: %d snapshot(s) delivered for one hit of the configured line' % (i, life['snapshots']))
+    if problems:
+        path = c.save_replay({'direction': 'C2S', 'module': 'Trace_AgentIT', 'kind': 'two-lives', 'result': res,
+                              'problems': problems})
+        c.violation('two lives of the agent in one process (deep.start, hit, shutdown, again): %s' % problems[:3], path,
+                    signature={'lives': 'shared-config-store'})
+
+
+def repo_it_leg(c):
+    """The repository's OWN integration tests (tests/it_tests), unchanged, run under the recording pytest plugin; every
+    test's trace is validated against the composition."""
+    import glob
+    import tempfile
+    repo = os.environ.get('VERIF_REPO', '/repo')
+    out = tempfile.mkdtemp(prefix='ittr_')
+    p = _run_sub([sys.executable, '-m', 'pytest', '-q', '-p', 'no:cacheprovider', '-p', 'harness.it_recorder',
+                  os.path.join(repo, 'tests', 'it_tests')], env_extra={'IT_TRACE_DIR': out}, timeout=600)
+    tail = p.stdout.decode('utf-8', 'replace').strip().split('\n')[-1]
+    files = sorted(glob.glob(os.path.join(out, '*.json')))
+    if not files:
+        raise tlc.MachineryError('the repository integration tests produced no traces: %s' % tail)
+    tests = [json.load(open(f)) for f in files]
+    traces = [t['events'] for t in tests]
+    accepted, progress, r = tlc.validate_traces('Trace_AgentIT', traces, constants=CONSTS, invariants=['TraceInvariant'])
+    c.states += r.distinct
+    c.transitions += r.generated
+    c.extra['repo_it_tests'] = {'pytest': tail, 'traces': len(traces)}
+    for i, t in enumerate(tests):
+        c.traces_validated += 1
+        c.note_case(key=('repo-it', t['test']), nontrivial=True)
+        if i not in accepted or not r.ok:
+            at = progress.get(i, 1)
+            ev = traces[i][at - 1] if at - 1 < len(traces[i]) else None
+            path = c.save_replay({'direction': 'C2S', 'module': 'Trace_AgentIT', 'kind': 'repo-it', 'test': t['test'],
+                                  'trace': traces[i], 'rejected_at': at})
+            c.violation('the repository test %s: trace rejected by Trace_AgentIT at event %d: %s' % (t['test'], at, ev),
+                        path, signature={'lives': 'shared-config-store'} if (ev or {}).get('ev') == 'pollreq' else None)
+    import shutil
+    shutil.rmtree(out, ignore_errors=True)
